@@ -12,6 +12,8 @@ From SCC Require Import Base.Sexp Lang.AxSyn Sem.AxSem Model.ParMoves Model.Back
 Import ListNotations.
 Open Scope Z_scope.
 Open Scope list_scope.
+(* names that lived in this file before they moved to Proof/SimFrag.v (kept for qualified uses) *)
+Notation NoDup_app_tail := SimFrag.NoDup_app_tail (only parsing).
 
 (* ---------- the image built from an instruction list ---------- *)
 Lemma build_code_below : forall cs i a im j, (j < i)%positive -> PM.find j (code (build cs i a im)) = PM.find j (code im).
@@ -182,7 +184,7 @@ Proof.
     assert (NH : is_hash_label (show_ident (dname d) +++ "_") = false).
     { unfold plain_names in PL. rewrite forallb_forall in PL. rewrite <- PD in Hd. specialize (PL d Hd).
       destruct (is_hash_label (show_ident (dname d) +++ "_")) eqn:E; auto.
-      apply is_hash_app_ in E. rewrite hash_name_is, E in PL. discriminate. }
+      apply is_hash_app_ in E. rewrite E in PL. discriminate. }
     destruct (layout_at im cs (preamble ++ su ++ pre) (LAB (show_ident (dname d) +++ "_") :: cd) (post ++ cleanup) CA LA)
       as [CAd LAd].
     { unfold cs. rewrite EQ. rewrite <- !app_assoc. cbn [app]. rewrite <- !app_assoc. reflexivity. }
